@@ -240,8 +240,10 @@ class Impl:
                 self.servers[name].valid_until = t
         elif k == 'AddApp':
             _, label, path, a = op
-            alloc = self._alloc(label, path)
             nm = app_name(a['name'])
+            if nm not in self.cell.apps and a.get('order') == 0:
+                return 'noop'     # see below; decided before _alloc creates the allocations along the path
+            alloc = self._alloc(label, path)
             if nm in self.cell.apps:
                 self.cell.add_app(alloc, self.cell.apps[nm])
             elif a.get('order') == 0:
